@@ -712,43 +712,63 @@ func ruleKinds(w *World, r *Report, pkg *ssa.Package) {
 
 // ---------------------------------------------------------------- R-IDENTUSE
 
-// ruleIdentUse: identity hashing (ident, pathIdent) is coarser than equality
-// and may be used only by the set diff / set patch, never by Equals or
-// hashCode of any type.
+// ruleIdentUse: identity hashing (ident, pathIdent) is coarser than equality;
+// it must not be reachable from any Equals or hashCode method (in-package
+// static and interface calls), and it must still be used by the set diff and
+// the set patch.
 func ruleIdentUse(w *World, r *Report, pkg *ssa.Package, tag string) {
 	const rule = "R-IDENTUSE"
-	allowed := map[string]bool{"diff": true, "patch": true, "ident": true}
-	n := 0
-	for _, fn := range w.FuncsOf(pkg) {
-		top := fn
-		for top.Parent() != nil {
-			top = top.Parent()
-		}
-		allInstrs(fn, func(in ssa.Instruction) {
-			c, ok := in.(ssa.CallInstruction)
-			if !ok {
-				return
-			}
-			sf := staticCallee(c)
-			if sf == nil || fnPkg(sf) != pkg.Pkg {
-				return
-			}
-			if sf.Name() != "ident" && sf.Name() != "pathIdent" {
-				return
-			}
-			n++
-			recvT := ""
-			if top.Signature.Recv() != nil {
-				recvT = typeName(top.Signature.Recv().Type())
-			}
-			ok2 := allowed[top.Name()] && (recvT == "jsonSet" || recvT == "jsonObject")
-			key := fmt.Sprintf("%s→%s", fnName(top), sf.Name())
-			r.Check(ok2, rule, key, w.Pos(c.Pos()), "identity hashing is used by the set diff/patch only",
-				"identity hashing (keys only) is used outside the set diff/patch: Equals/hashCode must compare full content, or objects that differ outside their keys compare equal")
-		})
+	nt := newNodeTypes(w, pkg, tag)
+	isIdent := func(fn *ssa.Function) bool {
+		return fnPkg(fn) == pkg.Pkg && (fn.Name() == "ident" || fn.Name() == "pathIdent") && fn.Signature.Recv() != nil
 	}
-	if n < 6 {
-		r.Bad(rule, tag+":instance-floor", "-", fmt.Sprintf("only %d uses of ident/pathIdent found", n))
+	// reachability over resolved in-package callees
+	reachIdent := func(start *ssa.Function) (bool, string) {
+		seen := map[*ssa.Function]bool{start: true}
+		work := []*ssa.Function{start}
+		for len(work) > 0 {
+			f := work[len(work)-1]
+			work = work[:len(work)-1]
+			found := ""
+			withClosures(f, func(g *ssa.Function) {
+				allInstrs(g, func(in ssa.Instruction) {
+					c, ok := in.(ssa.CallInstruction)
+					if !ok {
+						return
+					}
+					for _, callee := range w.implementations(c) {
+						if fnPkg(callee) != pkg.Pkg || callee.Blocks == nil {
+							continue
+						}
+						if isIdent(callee) {
+							found = fmt.Sprintf("%s calls %s at %s", fnName(f), callee.Name(), w.Pos(c.Pos()))
+						}
+						if !seen[callee] {
+							seen[callee] = true
+							work = append(work, callee)
+						}
+					}
+				})
+			})
+			if found != "" {
+				return true, found
+			}
+		}
+		return false, ""
+	}
+	for _, t := range nt.names {
+		for _, m := range []string{"Equals", "hashCode"} {
+			fn := nt.method(t, m)
+			r.Fn(fnName(fn))
+			bad, via := reachIdent(fn)
+			r.Check(!bad, rule, fnName(fn)+":no-identity-hashing", w.Pos(fn.Pos()), "equality and hashing never go through identity (keys-only) hashing",
+				"identity hashing (keys only) is reachable from "+m+": "+via+" — objects that differ outside their keys compare equal")
+		}
+	}
+	for _, tm := range [][2]string{{"jsonSet", "diff"}, {"jsonSet", "patch"}} {
+		fn := nt.method(tm[0], tm[1])
+		ok, _ := reachIdent(fn)
+		r.Check(ok, rule, fnName(fn)+":uses-identity-hashing", w.Pos(fn.Pos()), "the set "+tm[1]+" matches object members by identity", "the set "+tm[1]+" no longer matches object members by their identity (SetKeys has no effect)")
 	}
 }
 
@@ -805,6 +825,54 @@ func ruleHashMove(w *World, r *Report, nt *nodeTypes) {
 			r.Check(!sorted, rule, key+":order-sensitive", pos, "the ordered list's digest input is not sorted",
 				"the ordered list's element digests are sorted before hashing: permuted lists hash alike, and list diff matches them as common elements")
 		}
+		if t == "jsonObject" {
+			// sorting the key strings is fine; sorting digests separates a key's digest from its value's
+			digestSorted := false
+			allInstrs(fn, func(in ssa.Instruction) {
+				c, ok := in.(ssa.CallInstruction)
+				if !ok {
+					return
+				}
+				if a := w.sorterArg(c, 0); a != nil && vis[a] {
+					if sl, ok := a.Type().Underlying().(*types.Slice); ok {
+						if _, isArr := sl.Elem().Underlying().(*types.Array); isArr {
+							digestSorted = true
+						}
+					}
+				}
+			})
+			r.Check(!digestSorted, rule, key+":keys-bound-to-values", pos, "key and value digests keep their pairing (only key strings are sorted)",
+				"the object's key and value digests are sorted as one pool: the digest no longer says which value belongs to which key, so objects with permuted values hash alike")
+		}
+		// framing: everything concatenated into the digest input is a fixed-width digest or the constant tag
+		frameBad := ""
+		for v := range vis {
+			c, ok := v.(*ssa.Call)
+			if !ok {
+				continue
+			}
+			b, ok := c.Call.Value.(*ssa.Builtin)
+			if !ok || b.Name() != "append" || len(c.Call.Args) != 2 {
+				continue
+			}
+			if sl, ok := c.Type().Underlying().(*types.Slice); !ok || !isByteType(sl.Elem()) {
+				continue
+			}
+			arg := strip(c.Call.Args[1])
+			fixed := false
+			if s2, ok := arg.(*ssa.Slice); ok {
+				if p, ok := s2.X.Type().Underlying().(*types.Pointer); ok {
+					if _, isArr := p.Elem().Underlying().(*types.Array); isArr && s2.Low == nil && s2.High == nil {
+						fixed = true
+					}
+				}
+			}
+			if !fixed {
+				frameBad = w.Pos(c.Pos())
+			}
+		}
+		r.Check(frameBad == "", rule, key+":fixed-width-fields", pos, "the digest input is a concatenation of fixed-width digests behind the tag",
+			"a variable-length field is concatenated into the digest input (at "+frameBad+"): field boundaries become ambiguous, so different containers can produce the same byte string")
 	}
 }
 
@@ -1209,4 +1277,97 @@ func ruleIdentProv(w *World, r *Report, pkg *ssa.Package, tag string) {
 	r.Check(n > 0 && bad == "", rule, fnName(fn)+":identity-is-a-projection", w.Pos(fn.Pos()),
 		"every value entering the member's identity is loaded from the member itself",
 		"a value that does not come from the candidate object enters its identity (at "+bad+"): a keyed hunk can match a member that does not carry the key, and the nested change lands in the wrong object")
+}
+
+func isByteType(t types.Type) bool {
+	b, ok := t.Underlying().(*types.Basic)
+	return ok && (b.Kind() == types.Byte || b.Kind() == types.Uint8)
+}
+
+// ruleObjRecurse: for a key present on both sides the object diff always
+// reaches the recursive diff of the two values (or skips it only on the true
+// edge of their Equals under the caller's options).
+func ruleObjRecurse(w *World, r *Report, pkg *ssa.Package, tag string) {
+	rule := "R-OBJRECURSE"
+	if tag == "lib" {
+		rule += "(lib)"
+	}
+	fn := w.MethodOpt(pkg, "jsonObject", "diff")
+	if fn == nil {
+		infra("%s: (jsonObject).diff not found", tag)
+	}
+	r.Fn(fnName(fn))
+	lps := loopsOf(fn)
+	var call *ssa.Call
+	allInstrs(fn, func(in ssa.Instruction) {
+		if c, ok := in.(*ssa.Call); ok && c.Call.IsInvoke() && c.Call.Method.Name() == "diff" {
+			call = c
+		}
+	})
+	if call == nil {
+		r.Bad(rule, fnName(fn)+":recursion", w.Pos(fn.Pos()), "the object diff no longer recurses into values present on both sides")
+		return
+	}
+	l := innermostLoop(lps, call.Block())
+	if l == nil {
+		r.Unk(rule, fnName(fn)+":recursion", w.Pos(call.Pos()), "the recursive diff is not inside the loop over keys")
+		return
+	}
+	// the both-present edge: ok == true of the lookup in the other object
+	var present *Edge
+	for b := range l.Blocks {
+		cond, tE, _, okb := branchEdges(b)
+		if !okb {
+			continue
+		}
+		if ex, ok := cond.(*ssa.Extract); ok && ex.Index == 1 {
+			if lk, ok := ex.Tuple.(*ssa.Lookup); ok && lk.CommaOk && (tE.To() == call.Block() || edgeDominates(tE, call.Block())) {
+				e := tE
+				present = &e
+			}
+		}
+	}
+	if present == nil {
+		r.Unk(rule, fnName(fn)+":recursion", w.Pos(call.Pos()), "cannot find the `key present on both sides` edge")
+		return
+	}
+	// accepted skips: true edge of Equals between the two values
+	accept := EdgeSet{}
+	for b := range l.Blocks {
+		cond, tE, _, okb := branchEdges(b)
+		if !okb {
+			continue
+		}
+		if c, ok := cond.(*ssa.Call); ok && c.Call.IsInvoke() && c.Call.Method.Name() == "Equals" {
+			accept[tE] = true
+		}
+	}
+	// from the present edge, can the header be reached without the call block?
+	seen := map[*ssa.BasicBlock]bool{}
+	work := []*ssa.BasicBlock{present.To()}
+	skipped := false
+	for len(work) > 0 {
+		b := work[len(work)-1]
+		work = work[:len(work)-1]
+		if seen[b] || b == call.Block() {
+			continue
+		}
+		seen[b] = true
+		for j, nx := range b.Succs {
+			if accept[Edge{b, j}] {
+				continue
+			}
+			if nx == l.Header {
+				skipped = true
+			}
+			if l.Blocks[nx] {
+				work = append(work, nx)
+			}
+		}
+	}
+	if present.To() == call.Block() {
+		skipped = false
+	}
+	r.Check(!skipped, rule, fnName(fn)+":both-present-keys-are-diffed", w.Pos(call.Pos()), "every key present on both sides reaches the recursive diff of its values",
+		"a key present on both sides can be passed over without diffing its values (and without an Equals check): unequal values under that key produce no hunk")
 }
